@@ -216,3 +216,119 @@ pub fn c13_repeated_options(out: &mut Out) {
 	}
 	let _ = std::fs::remove_dir_all(&dir);
 }
+
+/// C13: an operand that cannot be read (a directory: `open` succeeds, mapping
+/// fails, every `read` fails) is "any other failure" — exit 1, a message
+/// naming the operand, nothing on stdout — whichever source format is named.
+pub fn c13_unreadable_operand(out: &mut Out) {
+	let dir = procs::scratch_dir("c13d");
+	let sub = format!("{dir}/adir");
+	let _ = std::fs::create_dir_all(&sub);
+	let named = format!("{dir}/dir.msgpack");
+	let _ = std::fs::create_dir_all(&named);
+	let good = format!("{dir}/good.json");
+	std::fs::write(&good, b"[1]\n").expect("write");
+	for (_, bin) in bins() {
+		let mut cases: Vec<Vec<String>> = vec![vec![sub.clone()], vec![named.clone()], vec![good.clone(), named.clone()]];
+		for f in ["j", "json", "m", "msgpack", "t", "toml", "y", "yaml"] {
+			cases.push(vec![format!("-f{f}"), sub.clone()]);
+			cases.push(vec!["-f".into(), f.to_string(), "-tm".into(), sub.clone()]);
+		}
+		for args in cases {
+			let r = procs::run_io(&bin, &args, None, Sink::Pipe, Duration::from_secs(30));
+			out.eval("unreadable_operand_exit_1", &args.join(" "), true);
+			let stderr = String::from_utf8_lossy(&r.stderr).to_string();
+			let first_ok = args.contains(&good);
+			if r.status != Status::Exit(1) || !stderr.starts_with("xt error in ") || (!first_ok && !r.stdout.is_empty()) {
+				out.fail(
+					"unreadable_operand_exit_1",
+					"",
+					format!("xt {} (operand is a directory): wait status {:?}, stdout {}, stderr {:?} — expected status 1 and `xt error in <operand>: …`", args.join(" "), r.status, hex(&r.stdout), stderr),
+				);
+			}
+		}
+	}
+	let _ = std::fs::remove_dir_all(&dir);
+}
+
+/// C14: a regular file that cannot be memory-mapped (procfs files report size
+/// 0 and refuse mmap) is read through a reader instead; the output equals the
+/// library's for the file's bytes.
+pub fn c14_unmappable_regular_file(out: &mut Out) {
+	for path in ["/proc/sys/kernel/ostype", "/proc/sys/kernel/osrelease", "/proc/self/status", "/proc/version"] {
+		let Ok(bytes) = std::fs::read(path) else { continue };
+		for (_, bin) in bins() {
+			for (from, to) in [(Fmt::Yaml, Fmt::Json), (Fmt::Yaml, Fmt::Msgpack), (Fmt::Toml, Fmt::Json)] {
+				let args = vec![format!("-f{}", from.letter()), format!("-t{}", to.letter()), path.to_string()];
+				let r = procs::run_io(&bin, &args, None, Sink::Pipe, Duration::from_secs(30));
+				// /proc/self/status differs per process; compare verdicts only there.
+				let lib = translate(&bytes, &Supply::Reader(vec![]), Some(from), to);
+				out.eval("unmappable_file_falls_back_to_reader", &format!("{path}{}{}", from.name(), to.name()), lib.ok());
+				let same_bytes = path != "/proc/self/status";
+				let want = if lib.ok() { Status::Exit(0) } else { Status::Exit(1) };
+				let stderr = String::from_utf8_lossy(&r.stderr).to_string();
+				let mapping_error = stderr.contains("No such device") || stderr.contains("Cannot allocate");
+				if r.status != want || mapping_error || (same_bytes && lib.ok() && r.stdout != lib.output) {
+					out.fail(
+						"unmappable_file_falls_back_to_reader",
+						"",
+						format!("xt {}: wait status {:?}, stdout {}, stderr {:?}; the library on the file's bytes gives {}", args.join(" "), r.status, hex(&r.stdout), stderr, lib.describe()),
+					);
+				}
+			}
+		}
+	}
+}
+
+/// C15: status 0 means every byte was written — also when standard output is
+/// a NON-BLOCKING pipe that is full (the consumer is stalled, not gone): xt
+/// must not report success while output is missing.
+pub fn c15_nonblocking_full_pipe(out: &mut Out) {
+	use std::io::Read;
+	use std::os::unix::io::FromRawFd;
+	use std::process::{Command, Stdio};
+	let dir = procs::scratch_dir("c15n");
+	let path = format!("{dir}/big.json");
+	// ~300 KiB of output: several pipe capacities.
+	let doc = format!("[{}]\n", (0..40_000).map(|i| i.to_string()).collect::<Vec<_>>().join(","));
+	std::fs::write(&path, &doc).expect("write");
+	let small = format!("{dir}/small.json");
+	std::fs::write(&small, b"[1,2,3]\n").expect("write");
+	for (_, bin) in bins() {
+		for args in [vec!["-tj".to_string(), path.clone()], vec!["-ty".to_string(), small.clone(), path.clone()]] {
+			let mut fds = [0 as libc::c_int; 2];
+			// SAFETY: plain libc calls; both descriptors are owned here and
+			// handed to `File` / `Stdio`, which close them.
+			let (read_end, write_end) = unsafe {
+				if libc::pipe(fds.as_mut_ptr()) != 0 {
+					continue;
+				}
+				let fl = libc::fcntl(fds[1], libc::F_GETFL);
+				libc::fcntl(fds[1], libc::F_SETFL, fl | libc::O_NONBLOCK);
+				(std::fs::File::from_raw_fd(fds[0]), Stdio::from_raw_fd(fds[1]))
+			};
+			let child = Command::new(&bin).args(&args).stdin(Stdio::null()).stdout(write_end).stderr(Stdio::piped()).spawn();
+			let Ok(child) = child else { continue };
+			// The consumer is stalled: nothing is read until xt has exited.
+			let outp = child.wait_with_output();
+			let Ok(outp) = outp else { continue };
+			let mut got = vec![];
+			let mut read_end = read_end;
+			let _ = read_end.read_to_end(&mut got);
+			let expected: Vec<u8> = args[1..].iter().flat_map(|f| {
+				let b = std::fs::read(f).unwrap_or_default();
+				translate(&b, &Supply::Slice, Some(Fmt::Json), Fmt::from_name(&args[0][2..]).unwrap_or(Fmt::Json)).output
+			}).collect();
+			out.eval("status_0_means_all_written_nonblocking", &args.join(" "), true);
+			let code = outp.status.code();
+			if code == Some(0) && got != expected {
+				out.fail(
+					"status_0_means_all_written_nonblocking",
+					"",
+					format!("xt {} with standard output a full non-blocking pipe: exit 0 but only {} of {} bytes were written", args.join(" "), got.len(), expected.len()),
+				);
+			}
+		}
+	}
+	let _ = std::fs::remove_dir_all(&dir);
+}
